@@ -417,7 +417,9 @@ func modeLin(seed int64, n int, exhaustive bool, bruteMax int) {
 		totalOverlapG += ro.overlapG
 		totalLookups += ro.lookups
 		totalNonempty += ro.nonempty
-		digests[historyDigest(ro.entries)] = true
+		dg := historyDigest(ro.entries)
+		digests[dg] = true
+		line["digest"] = dg
 		line["mode"] = "lin"
 		line["round"] = i
 		line["flavour"] = ro.flavour
